@@ -5,18 +5,29 @@ import json, os, re, shutil, sys
 logs = sys.argv[1:]
 res = {}
 caught = {}
-import itertools
-for line in itertools.chain(*[open(l, errors='replace') for l in logs]):
-    m = re.search(r'\[(/tmp/wt[0-9]?-(C\d+)/_seeded/(\w+))\] CAUGHT by (C\d+): (.*)', line)
-    if m:
-        key = m.group(2) + '-' + m.group(3)
-        sig = re.search(r'sig=(\S+)', m.group(5))
-        caught.setdefault(key, {})[m.group(4)] = sig.group(1) if sig else ''
-    m = re.search(r'RESULT (/tmp/wt[0-9]?-(C\d+)/_seeded/(\w+)) suite_ok=(\d) demo_fails_with_patch=(\d) caught_by=\[(.*?)\] tier=(\w+)', line)
-    if m:
-        key = m.group(2) + '-' + m.group(3)
-        prev = res.get(key, {}).get('caught_by', [])
-        res[key] = dict(dir=m.group(1), prop=m.group(2), suite_ok=m.group(4) == '1', demo_fails=m.group(5) == '1', caught_by=sorted(set(prev) | set(m.group(6).split())), tier=m.group(7))
+# matrix2.log was recorded while the round-2 worktrees still predated the repair of finding F17 (final INI line of
+# exactly 4096*k bytes): C14 reported that unrepaired defect in every one of them, so C14 entries of that log
+# count only for the changes where it reported something else.
+GENUINE_C14_ROUND2 = {'C14-D', 'C13-E', 'C14-E', 'C13-F', 'C12-F', 'C14-F'}
+for l in logs:
+    old_round2 = os.path.basename(l) == 'matrix2.log'
+    for line in open(l, errors='replace'):
+        m = re.search(r'\[(/tmp/wt[0-9]?-(C\d+)/_seeded/(\w+))\] CAUGHT by (C\d+): (.*)', line)
+        if m:
+            key = m.group(2) + '-' + m.group(3)
+            if old_round2 and m.group(4) == 'C14' and key not in GENUINE_C14_ROUND2:
+                continue
+            sig = re.search(r'sig=(\S+)', m.group(5))
+            if m.group(4) not in caught.get(key, {}) or not old_round2:
+                caught.setdefault(key, {})[m.group(4)] = sig.group(1) if sig else ''
+        m = re.search(r'RESULT (/tmp/wt[0-9]?-(C\d+)/_seeded/(\w+)) suite_ok=(\d) demo_fails_with_patch=(\d) caught_by=\[(.*?)\] tier=(\w+)', line)
+        if m:
+            key = m.group(2) + '-' + m.group(3)
+            cb = set(m.group(6).split())
+            if old_round2 and key not in GENUINE_C14_ROUND2:
+                cb.discard('C14')
+            prev = res.get(key, {}).get('caught_by', [])
+            res[key] = dict(dir=m.group(1), prop=m.group(2), suite_ok=m.group(4) == '1', demo_fails=m.group(5) == '1', caught_by=sorted(set(prev) | cb), tier=m.group(7))
 rows = []
 for key in sorted(res):
     r = res[key]
